@@ -8,10 +8,11 @@ ENV = dict(os.environ, GOFLAGS='-mod=mod', GOPROXY='off', GOSUMDB='off', GOTOOLC
 def sh(cmd, cwd=None, timeout=1800):
     p = subprocess.run(cmd, shell=True, cwd=cwd, env=ENV, stdout=subprocess.PIPE, stderr=subprocess.STDOUT, timeout=timeout)
     return p.returncode, p.stdout.decode(errors='replace')
-ap = argparse.ArgumentParser(); ap.add_argument('id'); ap.add_argument('variant'); ap.add_argument('--tier', default='quick'); ap.add_argument('--props'); ap.add_argument('--keep', action='store_true')
+ap = argparse.ArgumentParser(); ap.add_argument('id'); ap.add_argument('variant'); ap.add_argument('--tier', default='quick'); ap.add_argument('--props'); ap.add_argument('--keep', action='store_true'); ap.add_argument('--src', default=None)
 a = ap.parse_args()
 pid = a.id.upper(); props = a.props.split(',') if a.props else [pid]
-patch = f'/tmp/seed/{a.id}.{a.variant}.patch.diff'; demo = f'/tmp/seed/{a.id}.{a.variant}.demo_test.go'; metaf = f'/tmp/seed/{a.id}.{a.variant}.meta.json'
+src = a.src or ('/tmp/seed2' if a.variant in 'CDEF' else '/tmp/seed')
+patch = f'{src}/{a.id}.{a.variant}.patch.diff'; demo = f'{src}/{a.id}.{a.variant}.demo_test.go'; metaf = f'{src}/{a.id}.{a.variant}.meta.json'
 kept = f'/verif/seeded/{a.id}-{a.variant}'
 if not os.path.exists(patch) and os.path.exists(kept + '/patch.diff'):
     patch, demo, metaf = kept + '/patch.diff', kept + '/seeded_demo_test.go', kept + '/meta.json'
